@@ -199,10 +199,12 @@ def dsl_call(name, args):
 
 
 def run_cli(ctx, args, stdin=b"", timeout=25, max_out=20_000_000):
-    """vlib.mlr_run; a wall-clock timeout counts as a hang only when it repeats with twice the time (the host may be loaded)"""
+    """vlib.mlr_run; a wall-clock timeout counts as a hang only when it repeats with twice the time, at least 120 s (the host may be loaded)"""
     st, out, err = mlr_run(ctx, args, stdin, timeout=timeout, max_out=max_out, env=SAFE_ENV, cwd=SANDBOX["dir"])
     if st == "hang":
-        st, out, err = mlr_run(ctx, args, stdin, timeout=2 * timeout, max_out=max_out, env=SAFE_ENV, cwd=SANDBOX["dir"])
+        # on a heavily loaded host (load average > 100 was seen) a process START can take longer than the first cap: only a run that is
+        # still going after a long second cap counts as a hang
+        st, out, err = mlr_run(ctx, args, stdin, timeout=max(2 * timeout, 120), max_out=max_out, env=SAFE_ENV, cwd=SANDBOX["dir"])
     return st, out, err
 
 
